@@ -635,7 +635,41 @@ class Flow:
 
 
 # ------------------------------------------------------------------------------- E expressions
+def fold_fstrings(root):
+    """f"{'SECT'}-{x}" -> f"SECT-{x}": a formatted value that is a plain string constant (left behind by constant propagation)
+    is text; adjacent text parts are merged; an f-string without formatted values becomes a plain constant"""
+    class F(ast.NodeTransformer):
+        def visit_FormattedValue(self, n):
+            n.value = self.visit(n.value)          # the format spec is itself a JoinedStr and must stay one
+            return n
+
+        def visit_JoinedStr(self, n):
+            self.generic_visit(n)
+            vals = []
+            for v in n.values:
+                if isinstance(v, ast.FormattedValue) and isinstance(v.value, ast.Constant) and isinstance(v.value.value, str) \
+                        and v.conversion in (-1, 115) and v.format_spec is None:
+                    v = ast.copy_location(ast.Constant(value=v.value.value), v)
+                if isinstance(v, ast.Constant) and vals and isinstance(vals[-1], ast.Constant):
+                    vals[-1] = ast.copy_location(ast.Constant(value=str(vals[-1].value) + str(v.value)), vals[-1])
+                else:
+                    vals.append(v)
+            if len(vals) == 1 and isinstance(vals[0], ast.Constant):
+                return ast.copy_location(ast.Constant(value=vals[0].value), n)
+            n.values = vals
+            return n
+    return F().visit(root)
+
+
 class _Expr(ast.NodeTransformer):
+    def visit_FormattedValue(self, n):
+        n.value = self.visit(n.value)
+        return n
+
+    def visit_JoinedStr(self, n):
+        self.generic_visit(n)
+        return fold_fstrings(n)
+
     def visit_UnaryOp(self, n):
         self.generic_visit(n)
         if isinstance(n.op, ast.Not):
